@@ -33,7 +33,7 @@ ASSUMPTIONS = ['a variable whose i/o type is not declared counts as an output (d
                'online kinds: past-time formulas only; dense: all sensors start at 0']
 REAL = common.REAL_ALL
 STUBS = common.STUBS_ALL
-ENVELOPE_RULES = ['memory-past-above-delayed (F08) for pastified online monitors']
+ENVELOPE_RULES = ['memory-past-above-delayed (F08), narrowed: only a past operator with UNBOUNDED memory (once, historically, since) above a sub-formula with horizon > 0 is excluded; with bounded memory m (prev/s_prev/rise/fall: 1, bounded operators: their upper bound, summed along nesting) the comparison starts m updates after the horizon (common.warmup_extra)']
 INTERLEAVING_MEASURE = 'distinct (monitor kind, mode, number of updates or batches) tuples'
 PROBES = ['pastified', 'modular_specification', 'predicate_mixes_input_and_output', 'insensitive_predicate_present', 'sensitive_predicate_present', 'standard_with_declarations',
           'vacuity', 'dense_offline', 'dense_online', 'discrete_offline', 'discrete_online', 'predicate_at_equality', 'message_typed_variable']
@@ -58,7 +58,7 @@ def gen(rng, tier):
     for _ in range(200):
         ast = sg.gen_formula(rng, sg.GenCfg(vars=vars_, ops=ops, max_depth=rng.randint(2, 4), max_bound=rng.choice([2, 4]),
                                             p_loose=0.03, allow_const_only=rng.random() < 0.1))
-        if any(x[0] == 'pred' for x in sg.walk(ast)) and sg.vars_of(ast) and not common.warmup_visible(ast):
+        if any(x[0] == 'pred' for x in sg.walk(ast)) and sg.vars_of(ast) and not common.f08_blind(ast):
             break
     io = dict((v, rng.choice(['input', 'output', None])) for v in vars_)
     sem = rng.choice(SEMS)
@@ -112,7 +112,7 @@ def gen(rng, tier):
         sc['signals'] = dict((v, world.gen_dense_signal(rng, rng.randint(1, 6), start_q=0, max_gap_q=4)[0]) for v in vars_)
         sc['nbatches'] = rng.randint(1, 3)
     else:
-        sc['n'] = rng.randint(1, 8) + (int(sg.horizon(ast)) if pastify else 0)
+        sc['n'] = rng.randint(1, 8) + (int(sg.horizon(ast)) + int(common.warmup_extra(ast)) if pastify else 0)
         sc['data'] = world.gen_trace(rng, vars_, sc['n'])
         common.add_clock(rng, sc)
     return sc
@@ -126,7 +126,7 @@ def _memory_above_future(ast):
 
 
 def envelope(sc):
-    return common.warmup_visible(sc['ast']) if sc.get('pastify') else []
+    return common.f08_blind(sc['ast']) if sc.get('pastify') else []
 
 
 def insensitive(sem, io, node):
@@ -247,8 +247,11 @@ def run(sc):
     r.evals += 1
     bad = None
     h = sg.horizon(ast) if sc.get('pastify') else 0
+    wx = common.warmup_extra(ast) if sc.get('pastify') else 0      # F08: compare once the warm-up left every operator's memory
     if sc.get('pastify'):
         r.probes['pastified'] += 1
+    if wx:
+        r.probes['compared_after_warmup_memory'] += 1
     if sc.get('modular'):
         r.probes['modular_specification'] += 1
     if sc.get('structs'):
@@ -267,7 +270,7 @@ def run(sc):
                 hh = h * common.DENSE_TICK
                 shifted = [(p_[0] + hh, p_[1]) for p_ in ref]
                 for t in D.check_points([f, shifted], lo, hi):
-                    if t - hh < s0:
+                    if t - hh < s0 + wx * common.DENSE_TICK:
                         continue
                     if not eqn(D.at(f, t), D.at(ref, t - hh)):
                         bad = (t, D.at(f, t), D.at(ref, t - hh))
@@ -281,7 +284,7 @@ def run(sc):
                 bad = 'values'
         else:
             # pastified: the i-th update reports sample i-h of the original specification on the prefix 0..i
-            for i in range(int(h), sc['n']):
+            for i in range(int(h) + int(wx), sc['n']):
                 try:
                     pref = eval_discrete(ast, dict((v, sc['data'][v][:i + 1]) for v in sc['data']), i + 1, pred_hook=hook_list(sem, io))
                 except RefError:
